@@ -255,7 +255,10 @@ class ImplSession:
                     d.reset()
                 out = self.notified()
             elif tag == 3:
-                o = observer_classes()[ev[1]](d)
+                if len(ev) > 2 and ev[2] == 1:
+                    o = observer_classes()[ev[1]](d, subscribe=False)
+                else:
+                    o = observer_classes()[ev[1]](d)
                 out = self._register(o)
             elif tag == 4:
                 d.unsubscribe(self.objs[ev[1]])
